@@ -108,6 +108,8 @@ def run(chk):
         names = [f"s{3 * j + 1}" for j in range(n)] if use_df and rng.random() < 0.7 else (list(range(10, 10 + n)) if use_df else [f"X{j}" for j in range(n)])
         data = pd.DataFrame(X, columns=names) if use_df else X
         nsh = int(rng.integers(2, 41)) if not slow else int(rng.integers(2, 7))
+        if not slow and info == "gaussian" and rng.random() < 0.35:
+            nsh = int(rng.choice([101, 120, 150, 199]))          # beyond any internal batch size / early-stopping floor
         snap = snapshot(data)
         outcome, G, err = "Ok", None, None
         oracle = np.random.default_rng(int(rng.integers(2**31)))
@@ -188,7 +190,7 @@ def run(chk):
                    wf_cases, wf_pf, lambda i: wf_desc[i], shard=600, jobs=4)
     chk.rule = ("discover_network called with real estimators over all 4x5 method/estimator pairs, ndarray / DataFrame (string and int "
                 "labels), C and Fortran order, float and int dtype, counts / tie-heavy small integers / continuous / constant column / "
-                "duplicated column, n 1..4, max_lag 1..3, T on both sides of max_lag+2, n_shuffles 2..40, malformed method/estimator "
+                "duplicated column, n 1..4, max_lag 1..3, T on both sides of max_lag+2, n_shuffles 2..40 and 101..199, malformed method/estimator "
                 "names. The returned graph is canonicalised to records and checked by the Coq wf_graph inside the kernel and by the "
                 "Python predicate; the outcome enum is compared with the Coq validate; the input object is compared bit-for-bit. "
                 "Non-trivial = graph has at least one edge (or an error outcome).")
